@@ -18,6 +18,7 @@ from ..poly import as_poly, leaf_names, leaves_of
 from ..report import Finding, AnalysisError
 from ..shims import Key
 from .common import *
+from ..shims import tree_map
 from .equiv import *
 from .modelbox import build_model, spatial_for
 
@@ -79,6 +80,59 @@ def taint_worker(job):
         cfg["elements_checked"] = n_dep
     finally:
         w.mark_stop_gradient = False
+        A.set_cut(None)
+    return dict(cfg=cfg, problems=problems)
+
+
+def roundtrip_worker(job):
+    """One optimisation step hands the model through pytree flatten / unflatten (filter_jit, filter_value_and_grad,
+    apply_updates), which re-creates every dict field with its keys SORTED.  The function the model computes must not
+    depend on that: model'(x) == model(x), same types in the same order, for every parameter value and input."""
+    repo, spec = job
+    it, w = get_interp(repo)
+    A.set_cut(24 if spec["cls"] != "ConvContract" else None)
+    cfg = dict(spec)
+    problems = []
+    try:
+        D = spec["D"]
+        in_sig = [(tuple(t), c) for t, c in spec["input"]]
+        out_sig = [(tuple(t), c) for t, c in spec["output"]]
+        if spec["cls"] == "ConvContract":
+            ml = it.get_module("ginjax.ml")
+            N = (3,) * D
+            kinds = sorted({(s[0] + t[0], (s[1] + t[1]) % 2) for (s, _) in in_sig for (t, _) in out_sig})
+            fb = {t: A.leaf("F%s" % tname(t), (2,) + (3,) * D + (D,) * t[0]) for t in kinds}
+            bank = make_multi(it, list(reversed(kinds)), fb, D, True)
+            model = attempt(lambda: ml.ConvContract(tuple(in_sig), tuple(out_sig), bank, spec.get("use_bias", "auto"), 1, None, None, 1, Key(0)))
+        else:
+            model = attempt(lambda: build_model(it, w, dict(spec, _plain_bank=True)))
+            N = spatial_for(spec)
+        if isinstance(model, Rejected):
+            problems.append(("rejected", "constructor rejected: %s" % model.exc, None))
+            return dict(cfg=cfg, problems=problems)
+        from .c08 import symbolise
+
+        symbolise(model, "p")
+        xb = {t: block("x", t, (c,), N, D) for t, c in in_sig}
+        x = make_multi(it, [t for t, _ in in_sig], xb, D, True)
+        call = (lambda m: m(x)) if spec["cls"] == "ConvContract" else (lambda m: m(x)[0])
+        y1 = attempt(lambda: call(model))
+        model2 = tree_map(lambda a: a, model)
+        y2 = attempt(lambda: call(model2))
+        if isinstance(y1, Rejected) or isinstance(y2, Rejected):
+            if isinstance(y1, Rejected) != isinstance(y2, Rejected):
+                problems.append(("structure", "after a pytree round trip of the model (what every training step does) the call %s" % ("is rejected: %s" % y2.exc if isinstance(y2, Rejected) else "is accepted while the fresh model rejects it"), None))
+            return dict(cfg=cfg, problems=problems)
+        k1, k2 = [tuple(k) for k in y1.keys()], [tuple(k) for k in y2.keys()]
+        if k1 != k2:
+            problems.append(("structure", "after a pytree round trip of the model (what every training step does) the output types come back as %s instead of %s" % (k2, k1), None))
+        else:
+            for t in k1:
+                if not same_elems(y1[t], y2[t]):
+                    problems.append(("structure", "after a pytree round trip of the model (dict fields re-created with sorted keys, as every training step does) output block %s is computed differently: %s" % (tname(t), first_diff(y1[t], y2[t])), site_of(y2[t])))
+                    break
+        cfg["blocks_compared"] = len(k1)
+    finally:
         A.set_cut(None)
     return dict(cfg=cfg, problems=problems)
 
@@ -261,6 +315,35 @@ def run(ctx):
         extra = " (observed through %s)" % cls if cls != "ConvContract" else ""
         ctx.add(Finding("C09", "C09.TAINT." + kind, q, "%s%s (%d of the swept configurations fail)" % (what, extra, len(items)), path, line, cfg, kind + (":fast" if fast else "")))
     ev.instances("C09.TAINT.obligations", ev.obligations, floor=15 if ctx.tier == "quick" else 17)
+    # (d) the structure of the model after a training step: dict fields come back with sorted keys
+    U1 = ([((1, 0), 2), ((0, 0), 2)], [((1, 1), 2), ((1, 0), 2), ((0, 0), 2)])  # equal channel counts, unsorted orders
+    U2 = ([((1, 0), 1), ((0, 1), 2)], [((1, 1), 1), ((0, 0), 2)])
+    rj = []
+    for D in (2, 3):
+        for (i, o) in (U1, U2) if D == 2 else (U1,):
+            for bias in ("auto", "mean", "scalar", True, False) if D == 2 else ("auto",):
+                rj.append((ctx.repo, dict(cls="ConvContract", D=D, input=i, output=o, use_bias=bias)))
+    rj.append((ctx.repo, dict(cls="ConvBlock", D=2, depth=1, input=U1[0], output=U1[1], use_group_norm=True, activation="relu", use_bias="auto")))
+    rj.append((ctx.repo, dict(cls="ResNet", D=2, depth=2, input=U1[0], output=U1[1][1:], use_group_norm=True, activation="relu", use_bias="auto", num_conv=1)))
+    if ctx.thorough():
+        rj.append((ctx.repo, dict(cls="UNet", D=2, depth=2, input=U1[0], output=U1[1][1:], use_group_norm=False, activation="gelu", use_bias="mean", num_downsamples=1, num_conv=1)))
+        rj.append((ctx.repo, dict(cls="DilResNet", D=2, depth=2, input=U1[0], output=U1[1][1:], use_group_norm=False, activation="relu", use_bias="auto")))
+        rj.append((ctx.repo, dict(cls="ResNet", D=3, depth=2, input=U1[0], output=U1[1][1:], use_group_norm=True, activation="relu", use_bias="auto", num_conv=1)))
+    n_rt = 0
+    for job, r in ctx.pairs(roundtrip_worker, rj, chunk=1):
+        cfg = r["cfg"]
+        n_rt += 1
+        ev.obligation("structure", not r["problems"], ("rt",) + tuple(str(v) for v in sorted(cfg.items())), sample=cfg if n_rt % 5 == 1 else None)
+        for kind, what, site in r["problems"][:1]:
+            q = "ConvContract.__call__"
+            extra = " (observed through %s)" % cfg["cls"] if cfg["cls"] != "ConvContract" else ""
+            if site and site[0]:
+                extra += " [last array operation at %s:%s in %s]" % (site[0].split("/src/")[-1], site[1], site[2])
+            by.setdefault(("rt", kind), []).append((what + extra, cfg))
+    for (_, kind), items in sorted((k, v) for k, v in by.items() if k[0] == "rt"):
+        what, cfg = items[0]
+        ctx.add(Finding("C09", "C09.STRUCT." + kind, "ConvContract.__call__", "%s (%d of the swept configurations fail)" % (what, len(items)), pm.path(LAYERS_MOD), pm.func(LAYERS_MOD, "ConvContract.__call__").lineno, cfg, kind))
+    ev.instances("C09.STRUCT.obligations", n_rt, floor=12)
     # (a) equivariance for every value of the learnable leaves: a compact set of the C06-C08 obligations is
     # decided here as well, so that a parameter that is harmless only at its initial value is reported by C09
     from . import c07, c08
